@@ -36,7 +36,7 @@ pub fn item_of(v: &Value) -> Item {
 pub static REALISATION: std::sync::atomic::AtomicUsize = std::sync::atomic::AtomicUsize::new(0);
 
 /// octets of key information of the model's router key in the ordinary realisation (0: the usual 91, a P-256 key); the replays
-/// walk this through every length up to 300, because nothing says a writer treats all lengths alike
+/// walk this through the lengths up to 1300, because nothing says a writer treats all lengths alike
 pub static KEYINFO_LEN: std::sync::atomic::AtomicUsize = std::sync::atomic::AtomicUsize::new(0);
 
 /// The session id a model session stands for.  In the edge realisation the ids are small numbers: the header field that
@@ -52,8 +52,9 @@ pub fn payload_of(it: &Item) -> Payload {
             "o4" => Payload::origin(MaxLenPrefix::new(Prefix::new(IpAddr::V4(Ipv4Addr::new(192, 0, 2, 1)), 32).unwrap(), None).unwrap(), Asn::from_u32(0)),
             "o6" => Payload::origin(MaxLenPrefix::new(Prefix::new(IpAddr::V6(Ipv6Addr::from((0x2001_0db8u128 << 96) | 1)), 128).unwrap(), Some(128)).unwrap(), Asn::from_u32(u32::MAX)),
             "k1" => Payload::router_key(KeyIdentifier::from([0xFFu8; 20]), Asn::from_u32(u32::MAX), RouterKeyInfo::try_from(vec![0x30u8]).unwrap()),
+            // (one provider: AS 0; two: the last AS number twice in a row - a list is a list, the source said so)
             "c1" => Payload::aspa(Asn::from_u32(u32::MAX - 1),
-                                  ProviderAsns::try_from_iter((0..it.2).map(|i| Asn::from_u32(if i == 0 { 0 } else { u32::MAX }))).unwrap()),
+                                  ProviderAsns::try_from_iter((0..it.2).map(|_| Asn::from_u32(if it.2 == 1 { 0 } else { u32::MAX }))).unwrap()),
             other => panic!("unknown model item {other}"),
         };
     }
@@ -636,7 +637,7 @@ pub fn replay(args: &[String]) {
     let cases = read_cases(&args[0]);
     let mut s = Summary::new();
     for (ci, c) in cases.iter().enumerate() {
-        KEYINFO_LEN.store(1 + (ci * 7) % 300, std::sync::atomic::Ordering::SeqCst);
+        KEYINFO_LEN.store(1 + (ci * 7) % 1300, std::sync::atomic::Ordering::SeqCst);
         for base in [0u32, 0xFFFF_FFFF] {
             // the runs on the shifted serial base also use the edge realisation of the payload items
             REALISATION.store(if base == 0 { 0 } else { 1 }, std::sync::atomic::Ordering::SeqCst);
